@@ -37,6 +37,9 @@ type srvInfo struct {
 	Web       int
 	SSHPort   int
 	SSHKeys   bool // ssh gateway with authorizedKeysFile
+	SkipIss   bool // auth.oidc.skipIssuerCheck
+	SkipExp   bool // auth.oidc.skipExpiryCheck
+	NoInc     bool // no incumbent (oidc skip-option matrix servers)
 
 	Inc       *honest // scripted incumbent
 	IncPort   int
@@ -72,6 +75,12 @@ func (s *srvInfo) cfgText() string {
 		fmt.Fprintf(&b, "auth.token = \"%s\"\n", s.Token)
 	} else {
 		fmt.Fprintf(&b, "auth.oidc.issuer = \"%s\"\nauth.oidc.audience = \"%s\"\n", iss.URL, oidcAudience)
+		if s.SkipIss {
+			fmt.Fprintf(&b, "auth.oidc.skipIssuerCheck = true\n")
+		}
+		if s.SkipExp {
+			fmt.Fprintf(&b, "auth.oidc.skipExpiryCheck = true\n")
+		}
 	}
 	fmt.Fprintf(&b, "transport.tcpMux = %v\ntransport.maxPoolCount = 5\n", s.Mux)
 	if s.Mux {
